@@ -39,13 +39,23 @@ else:
     if st:
         print("refusing: /repo has uncommitted changes:\n" + st); sys.exit(3)
     subprocess.run(["git", "-C", "/repo", "apply", os.path.join(d, "patch.diff")], check=True)
+    # evidence / logs / replays of a run against a seeded change never overwrite the committed ones
+    env["VERIF_OUT"] = "/tmp/seedout_%s_%s" % (sid, prop)
     try:
-        p = subprocess.run(cmd, cwd=V, stdout=subprocess.PIPE, stderr=subprocess.STDOUT, text=True)
+        p = subprocess.run(cmd, cwd=V, env=env, stdout=subprocess.PIPE, stderr=subprocess.STDOUT, text=True)
     finally:
         subprocess.run(["git", "-C", "/repo", "checkout", "--", "."], check=True)
 out = p.stdout
 viol = [l for l in out.splitlines() if l.startswith("VIOLATION") or l.startswith("obligation ")]
 res = {"check": " ".join(cmd[-4:]) if only else "./check %s --tier %s" % (prop, tier), "exit": p.returncode, "wall_s": round(time.time() - t0, 1),
        "caught": p.returncode == 1 and any(l.startswith("VIOLATION") for l in out.splitlines()), "violation_lines": viol[:12], "tail": out.strip().splitlines()[-6:]}
+import re, shutil
+for l in out.splitlines():
+    m = re.match(r"^VIOLATION property=\S+ replay=(\S+)", l)
+    if m and os.path.exists(m.group(1)):
+        shutil.copy2(m.group(1), os.path.join(d, "replay_%s.json" % prop))
+        res["replay_copy"] = "seeded/%s/replay_%s.json" % (sid, prop)
+        break
+res["mode"] = "scratch worktree (VERIF_REPO)" if "--worktree" in args else "applied to /repo, reverted afterwards"
 json.dump(res, open(os.path.join(d, "result_%s.json" % prop), "w"), indent=1)
 print(json.dumps(res, indent=1))
